@@ -26,6 +26,8 @@ EXPLANATION = (
 
 REC = "SimulatedCamera"
 BUFS = ("im.frame_data", "im.render_data")
+EXPLANATION += (' R-SHAPE: strides are the running products of the dims and recomputed whenever dims are assigned; the full-resolution shape carries the pixel type; the binning loop halves counter, width and height together; close stops the streamer first. R-INDEX on the type tables.')
+
 
 
 def shape_provenance(prog, f, arg):
